@@ -35,6 +35,8 @@ pub mod c07;
 pub mod c08;
 #[cfg(any(feature = "p09"))]
 pub mod c09;
+#[cfg(any(feature = "p09"))]
+pub mod c09pp;
 #[cfg(any(feature = "p10"))]
 pub mod c10;
 #[cfg(any(feature = "p11"))]
